@@ -519,7 +519,10 @@ class Headers(typing.Mapping[str, str]):
         for key, value in items:
             key = key.lower()
             if key in store:
-                store[key] = f"{store[key]}, {value}"
+                # repeated fields combine with ", " - except Cookie, whose pairs are
+                # separated by "; " (HTTP/2 clients may send one field per pair)
+                separator = "; " if key == "cookie" else ", "
+                store[key] = f"{store[key]}{separator}{value}"
             else:
                 store[key] = value
 
